@@ -53,6 +53,22 @@ Apply(op, l) ==
     [] op.k = "insert" -> IF ~op.v.ok THEN Exc(l, "TypeError") ELSE Ok(InsertAt(l, NormIns(Len(l), op.i), Item(op.v)))
     [] op.k = "extend" -> IF \E k \in 1..Len(op.vs) : ~op.vs[k].ok THEN Exc(l, "TypeError")     \* atomic reading, see note in the harness
                           ELSE Ok(l \o [k \in 1..Len(op.vs) |-> Item(op.vs[k])])
+    \* a[i] = v, del a[i], del a[i:j], a[i:j] = vs, a += vs: the list laws of item / slice assignment and deletion
+    [] op.k = "set" -> LET k == NormGet(Len(l), op.i) IN
+                       IF ~op.v.ok THEN Exc(l, "TypeError")
+                       ELSE IF k < 0 \/ k >= Len(l) THEN Exc(l, "IndexError") ELSE Ok([l EXCEPT ![k+1] = Item(op.v)])
+    [] op.k = "del" -> LET k == NormGet(Len(l), op.i) IN
+                       IF k < 0 \/ k >= Len(l) THEN Exc(l, "IndexError") ELSE Ok(RemoveAt(l, k+1))
+    [] op.k = "delslice" -> LET a == ClampS(Len(l), op.i)
+                                b == ClampS(Len(l), op.j) IN
+                            Ok(IF a >= b THEN l ELSE SubSeq(l, 1, a) \o SubSeq(l, b+1, Len(l)))
+    [] op.k = "setslice" -> LET a == ClampS(Len(l), op.i)
+                                b0 == ClampS(Len(l), op.j)
+                                b == IF b0 < a THEN a ELSE b0 IN
+                            IF \E k \in 1..Len(op.vs) : ~op.vs[k].ok THEN Exc(l, "TypeError")
+                            ELSE Ok(SubSeq(l, 1, a) \o [k \in 1..Len(op.vs) |-> Item(op.vs[k])] \o SubSeq(l, b+1, Len(l)))
+    [] op.k = "iadd" -> IF \E k \in 1..Len(op.vs) : ~op.vs[k].ok THEN Exc(l, "TypeError")
+                        ELSE Ok(l \o [k \in 1..Len(op.vs) |-> Item(op.vs[k])])
     [] op.k = "assign_self" -> Ok(l)                                                            \* owner.args = owner.args
     [] op.k = "extend_self" -> Ok(l \o l)                                                      \* a.extend(a): the list doubled, like list
     [] op.k = "remove" -> IF ~op.v.ok THEN Exc(l, "TypeError")
@@ -70,8 +86,8 @@ Apply(op, l) ==
 
 NoOp == [k |-> "init", i |-> 0, j |-> 0, st |-> 1, v |-> [id |-> 0, t |-> <<>>, ok |-> TRUE], vs |-> <<>>]
 Init == lst = <<>> /\ last = [op |-> NoOp, r |-> <<>>] /\ hist = <<>>
-Grows(op) == op.k \in {"append", "insert", "extend", "extend_self"}
-Do(op) == /\ (Grows(op) => Len(lst) + (IF op.k = "extend" THEN Len(op.vs) ELSE IF op.k = "extend_self" THEN Len(lst) ELSE 1) <= MaxLen)
+Grows(op) == op.k \in {"append", "insert", "extend", "extend_self", "iadd", "setslice"}
+Do(op) == /\ (Grows(op) => Len(lst) + (IF op.k \in {"extend", "iadd", "setslice"} THEN Len(op.vs) ELSE IF op.k = "extend_self" THEN Len(lst) ELSE 1) <= MaxLen)
           /\ LET res == Apply(op, lst) IN
              /\ lst' = res.l
              /\ last' = [op |-> op, r |-> res.r]
